@@ -781,6 +781,23 @@ def f6_defs(tier):
     lw["tasks"]["l0"]["next"][0]["publish"].append({"v": RES})
     lw["output"] = [{"v": "<% ctx(v) %>"}, {"n": "<% ctx(n) %>"}]
     out.append(("loop-publish", lw))
+    # a later sibling transition reads a variable an earlier sibling transition publishes (no leak between them)
+    out.append(("sibling-reads-sibling", WF({
+        "a": T([N(S, "b", publish=[("v", RES)]), N(S, "c", publish=[("u", "<% ctx(v) %>")])]),
+        "b": T(), "c": T()}, vars=V, output=OUT)))
+    lw2 = WF({
+        "a": T([N(S, "b", publish=[("n", "<% ctx().n + 1 %>")]),
+                N("<% succeeded() and ctx().n < 1 %>", "c"),
+                N("<% succeeded() and ctx().n >= 1 %>", "d")]),
+        "b": T(), "c": T(), "d": T()}, vars=[{"n": 0}])
+    out.append(("sibling-condition-reads-sibling", lw2))
+    # independent publishes of one variable; one branch publishes early and still has a task to run
+    add("fj-conflict-early-publish", {
+        "a": T([N(S, ["a1", "b1"])]),
+        "a1": T([N(S, "a2", publish=[("v", RES)])]),
+        "a2": T([N(S, "j")]),
+        "b1": T([N(S, "j", publish=[("v", RES)])]),
+        "j": T([N(S, "t")], join="all"), "t": T()})
     # a task forks into a join and a sibling that reads an input variable (C08: shared lists across transitions)
     out.append(("fanout-join-and-task-ctx", WF({
         "t0": T([N(S, ["a", "b"], publish=[("u", RES)])]),
